@@ -99,6 +99,10 @@ var c20Words = []string{
 	"func", "type", "class", "return", "main()", "{", "}", "##", "###", "#", "x:=1", "def", "foo_bar", "snake_case_99", "__init__",
 	// hyphen / apostrophe tokens of the compressor tokenizer
 	"don't", "can't", "l'uomo", "state-of-the-art", "non-stop", "no-one", "-", "--", "'", "''", "'s", "-no-", "'not'", "o'", "e-",
+	// contracted negations and single-word negatives (see c20NegContractions / c20NegWords)
+	"isn't", "aren't", "wasn't", "weren't", "hasn't", "haven't", "hadn't", "doesn't", "didn't", "won't", "couldn't", "shouldn't",
+	"Isn't", "HASN'T", "isn\u2019t", "don\u2019t", "hasn\u02bct", "cannot", "nor", "neither", "nobody", "né", "nessuno", "niente", "nulla", "neanche",
+	"it's", "they've", "we're", "i'll",
 	// digits
 	"0", "42", "3.14", "1e9", "٣", "２", "Ⅷ", "½",
 }
@@ -174,6 +178,31 @@ var c20CogEndings = []string{
 	"anza", "ence", "enza", "ity", "ità", "izer", "izzare", "ize", "ly", "ful", "ness", "ico", "logia", "logy", "ura", "ure",
 }
 
+// Negation vocabulary beyond the plain "not / no / never / non / mai": contracted negated auxiliaries
+// (the negation is the n't), single-word negatives of both languages, and - as neighbours that a stop
+// list may legitimately hold - contracted pronoun+auxiliary forms that carry no negation.
+var c20NegContractions = []string{
+	"isn't", "aren't", "wasn't", "weren't", "hasn't", "haven't", "hadn't", "don't", "doesn't", "didn't",
+	"can't", "couldn't", "won't", "wouldn't", "shouldn't", "mustn't", "needn't", "ain't", "shan't", "mightn't",
+}
+
+var c20NegWords = []string{
+	"not", "no", "never", "cannot", "nor", "neither", "none", "nobody", "nothing", "nowhere",
+	"non", "mai", "né", "nessuno", "nessuna", "niente", "nulla", "neanche", "nemmeno", "neppure",
+}
+
+var c20PlainContractions = []string{
+	"i'm", "it's", "he's", "she's", "we're", "you're", "they're", "i've", "we've", "you've", "they've",
+	"i'll", "we'll", "you'll", "they'll", "i'd", "that's", "there's", "let's", "l'ha", "c'è", "dell'anno", "un'idea", "po'",
+}
+
+// apostrophe variants: ASCII (kept inside the compressor's token), U+2019 / U+2018 / U+FF07 (punctuation: they
+// split the token), U+02BC (a modifier LETTER: stays inside the token)
+var c20Apostrophes = []string{"'", "'", "'", "\u2019", "\u2019", "\u02bc", "\u2018", "\uff07"}
+
+var c20AuxPlain = []string{"is", "are", "was", "were", "has", "have", "had", "do", "does", "did", "can", "could", "will", "would", "should", "must", "need",
+	"è", "era", "ha", "hanno", "sta"}
+
 var c20Letters = []string{"a", "b", "ab", "x", "é", "世", "no", "xyz", "0", "_", "y", "e", "func", "#", "-", "'", "\xff", "😀", "é"}
 
 func c20Pick(t *rapid.T, xs []string, label string) string {
@@ -200,6 +229,8 @@ func c20GenText(splitter bool) *rapid.Generator[c20Text] {
 	} else {
 		// analyser-only class: vocabulary shared by the English and the Italian analyser
 		classes = append(classes, "cognates", "cognates", "cognates")
+		// analyser-only class: clauses whose negation is carried by every kind of negation word
+		classes = append(classes, "negations", "negations", "negations")
 	}
 	return rapid.Custom(func(t *rapid.T) c20Text {
 		class := c20Pick(t, classes, "class")
@@ -243,6 +274,56 @@ func c20GenText(splitter bool) *rapid.Generator[c20Text] {
 					add(c20Pick(t, c20Cognates, "cog"), 1)
 				}
 				add(c20Pick(t, []string{" ", " ", " ", "\n", ", ", ". ", "; ", "  "}, "sep"), 1)
+			}
+		case "negations":
+			// short clauses: [stop word] subject <negation unit> [stop word] predicate <separator>. The negation
+			// unit is a contracted negated auxiliary (any apostrophe, any letter case), an auxiliary followed by a
+			// plain negation, a single-word negative, or - as a control - a contraction without negation.
+			recase := func(w string) string {
+				switch rapid.IntRange(0, 5).Draw(t, "case") {
+				case 0:
+					return strings.ToUpper(w)
+				case 1:
+					r, size := utf8.DecodeRuneInString(w)
+					return strings.ToUpper(string(r)) + w[size:]
+				default:
+					return w
+				}
+			}
+			stop := func() string {
+				return c20Pick(t, []string{"the", "a", "an", "to", "of", "in", "by", "for", "with", "its", "as", "been", "be", "il", "la", "un", "di", "da", "con", "per", "del"}, "stop")
+			}
+			n := npieces(12)
+			for i := 0; i < n; i++ {
+				if rapid.IntRange(0, 1).Draw(t, "lead") == 0 {
+					add(recase(stop()), 1)
+					add(" ", 1)
+				}
+				add(c20Pick(t, c20Cognates, "subj"), 1)
+				add(" ", 1)
+				switch rapid.IntRange(0, 9).Draw(t, "nk") {
+				case 0, 1, 2, 3, 4:
+					w := recase(c20Pick(t, c20NegContractions, "contr"))
+					add(strings.Replace(w, "'", c20Pick(t, c20Apostrophes, "apo"), 1), c20Rep(t))
+				case 5:
+					add(recase(c20Pick(t, c20AuxPlain, "aux")), 1)
+					add(" ", 1)
+					add(recase(c20Pick(t, c20NegWords, "neg")), 1)
+				case 6, 7:
+					add(recase(c20Pick(t, c20NegWords, "neg")), c20Rep(t))
+				case 8:
+					w := recase(c20Pick(t, c20PlainContractions, "pcontr"))
+					add(strings.Replace(w, "'", c20Pick(t, c20Apostrophes, "apo"), 1), 1)
+				default:
+					add(word(), 1)
+				}
+				add(" ", 1)
+				if rapid.IntRange(0, 2).Draw(t, "mid") == 0 {
+					add(recase(stop()), 1)
+					add(" ", 1)
+				}
+				add(c20Pick(t, c20Cognates, "pred"), 1)
+				add(c20Pick(t, []string{" ", " ", "\n", ", ", ". ", "; ", "? ", " and ", " or ", " but ", " e ", " ma ", " if "}, "sep"), 1)
 			}
 		case "only_seps":
 			n := npieces(30)
